@@ -532,6 +532,7 @@ type FuncSpec struct {
 	Modifies  []*Clause
 	LockRequires []*Clause
 	LockEnsures  []*Clause
+	Acquires     []*Clause // locks whose critical section the function enters (once): callers must not do so twice for one snapshot
 	Assumes      []*Clause // postconditions assumed at call sites and not proved from the body (global assumptions such as A-fresh)
 	Witnesses []FunDecl
 	Asserts   []*AssertHint
@@ -592,7 +593,7 @@ func NewSpecSet() *SpecSet {
 
 var clauseKeywords = map[string]bool{"requires": true, "ensures": true, "modifies": true, "pure": true, "trusted": true, "lemma": true,
 	"loop": true, "invariant": true, "decreases": true, "callspec": true, "observe": true, "replay": true, "prop": true, "func": true,
-	"sort": true, "fun": true, "ghost": true, "axiom": true, "define": true, "inline": true, "noinline": true, "guarded": true, "flag": true, "loopmodifies": true, "lockrequires": true, "lockensures": true, "lockinvariant": true, "witness": true, "loopfresh": true, "assumes": true, "loopkeeps": true, "assert": true}
+	"sort": true, "fun": true, "ghost": true, "axiom": true, "define": true, "inline": true, "noinline": true, "guarded": true, "flag": true, "loopmodifies": true, "lockrequires": true, "lockensures": true, "lockinvariant": true, "witness": true, "loopfresh": true, "assumes": true, "loopkeeps": true, "assert": true, "acquires": true}
 
 // ParseSpecLines parses the //@ lines of one package (pkgPath is used for type resolution).
 func (ss *SpecSet) ParseSpecLines(lines []SpecLine, pkgPath string, keyPrefix string) error {
@@ -822,7 +823,7 @@ func (ss *SpecSet) ParseSpecLines(lines []SpecLine, pkgPath string, keyPrefix st
 						return fmt.Errorf("%s:%d: bad callspec clause %q", it.src.File, it.src.Line, parts[1])
 					}
 				}
-			case "requires", "ensures", "modifies", "invariant", "decreases", "observe", "loopmodifies", "lockrequires", "lockensures", "lockinvariant", "assumes", "loopkeeps":
+			case "requires", "ensures", "modifies", "invariant", "decreases", "observe", "loopmodifies", "lockrequires", "lockensures", "lockinvariant", "assumes", "loopkeeps", "acquires":
 				texts := []string{it.rest}
 				if it.kw == "modifies" || it.kw == "loopmodifies" || it.kw == "observe" || it.kw == "loopkeeps" {
 					texts = splitTop(it.rest, ',')
@@ -845,6 +846,8 @@ func (ss *SpecSet) ParseSpecLines(lines []SpecLine, pkgPath string, keyPrefix st
 						} else {
 							cur.Ensures = append(cur.Ensures, c)
 						}
+					case "acquires":
+						cur.Acquires = append(cur.Acquires, c)
 					case "assumes":
 						cur.Assumes = append(cur.Assumes, c)
 					case "lockrequires":
